@@ -182,8 +182,8 @@ def evaluate_case(ctx, pool, case):
     if cr:
         if cr[0] == "terminated" or "out of memory" in cr[2].lower():
             return ("driver-terminated:%s:%s" % (case["shape"], cr[1][:60]), info + "\n" + cr[2][-1500:]), None
-        ctx.inconclusive["crash-belongs-to-C01:" + cr[1][:50]] += 1
-        return None, None
+        # a memory error while a limit should have stopped the evaluation: the evaluation left its physical bounds
+        return ("memory-error:%s:%s" % (case["shape"], cr[1][:60]), info + "\n" + cr[2][:2500]), None
     ld = res.step(0)
     if not ld or ld.get("st") != "ok":
         return ("shape-rejected:" + case["shape"], info + res.stderr[-800:]), None
@@ -261,7 +261,7 @@ def check(ctx, case):
 
 def shard_main(ctx):
     from hypothesis import given
-    n = {"quick": 220, "thorough": 12000}[ctx.tier]
+    n = {"quick": 1200, "thorough": 20000}[ctx.tier]
 
     @given(cases)
     def test(case):
